@@ -35,6 +35,15 @@ def plan(histories, backend="pebble", ids=None):
             "theta": 750000000, "tol": sl.T050, "query_mode": "end", "histories": histories}
 
 
+def migrate_ends(ctx, sigs, pre=None, ver_base=0):
+    """Byte offsets just after the closing brace of every element of the encoded signature array."""
+    p = os.path.join(ctx.scratch, "ends.plan.json")
+    with open(p, "w") as fh:
+        json.dump(dict(plan([list(pre or []) + [{"op": {"op": "migrate", "sigs": sigs}}]]), ver_base=ver_base), fh)
+    out = ctx.drv(["migrate-len", "-ends", "-plan", p]).stdout.strip().splitlines()[-1]
+    return json.loads(out)
+
+
 def migrate_len(ctx, sigs, pre=None, ver_base=0):
     """Encoded length of the file a migrate step of the history [pre..., migrate(sigs)] reads."""
     p = os.path.join(ctx.scratch, "len.plan.json")
@@ -232,9 +241,24 @@ def check(ctx):
     ctx.notes["truncation_points"] = len(cuts)
     ctx.notes["truncation_file_bytes"] = ln
     # sampled truncation points of a big file
-    bigl = [sig(rng, big_ids) for _ in range(1500)]
+    bigl = [sig(rng, big_ids) for _ in range(2100 if thorough else 1500)]
     lnb = migrate_len(ctx, bigl)
     bcuts = sorted(rng.sample(range(lnb), 120 if thorough else 14)) + [lnb - 1, lnb - 2, lnb - 30]
+    # STRUCTURAL cut points: just after the closing brace of an element, after the comma that follows it,
+    # and one byte before the brace — for the elements around every import-batch boundary (1000, 2000),
+    # the first, and the last.  A parser that tells "array ended" from "input ended" only by chance is
+    # exposed exactly there.
+    ends = migrate_ends(ctx, bigl)
+    if len(ends) != len(bigl) or ends[-1] >= lnb:
+        raise vlib.Inconclusive("element offsets of the encoded file could not be determined (%d for %d)" % (len(ends), len(bigl)))
+    marks = [1, 2, 500] + [k + d for k in range(1000, len(bigl), 1000) for d in (-2, -1, 0, 1, 2)] + [len(bigl) - 1, len(bigl)]
+    if not thorough:
+        marks = [1, 999, 1000, 1001, len(bigl)]
+    for k in marks:
+        e = ends[k - 1]
+        bcuts += [e - 1, e, e + 1] if thorough or k in (1000,) else [e]
+    bcuts = sorted(set(bcuts))
+    ctx.notes["structural_cut_elements"] = marks
     bhs = [[{"op": {"op": "migrate", "sigs": bigl, "cut": c}}] for c in bcuts]
     sl.validate_histories(ctx, dict(plan(bhs, ids=["m00", "m39"]), ver_base=0), "trunc_big", "C18")
     ctx.notes["truncation_points_big"] = len(bcuts)
